@@ -18,7 +18,14 @@
    oidc.AccessTokenResponse: verify_id_token for a token whose signature verifies (MsgRules.v verify_id_token,
    oidc_authzresp_verify_idt, oidc_tokenresp_verify_idt; the left-half hash is an environment function), with the
    two bindings code <-> c_hash and access_token <-> at_hash as two independent rule lists, tied to the code by
-   the full truth table of the driver (hash_tables).  The other embedded signed objects (forged / unsigned ID
+   the full truth table of the driver (hash_tables).  Rules over a SET of parameters (MsgRules.v presence /
+   count_true): Message.has_none_or_one_of as the loop it is, proved to answer "at most one present" for every list
+   length and pattern and in every order of the names; at-least-one / all-or-none / all / none / exactly-one likewise;
+   the classes' rules stated through them (CIBA AuthenticationRequest with its request object and id_token_hint
+   symbolic, RegistrationResponse, LogoutToken, JWTSecuredAuthorizationRequest, OauthClientMetadata /
+   OauthClientInformationResponse, device AccessTokenRequest), the names of the CIBA hint rule regenerated from the
+   code (Gen/Schema.v set_rule_calls), tied to the code by the driver's full presence tables.
+   The other embedded signed objects (forged / unsigned ID
    Tokens, id_token_hint, the request object of oauth2 / oidc AuthorizationRequest) and the opaque kinds are
    decided by the driver's oracle on the real code only. *)
 From Coq Require Import String.
@@ -285,6 +292,99 @@ Theorem C11_AccessTokenResponse_no_hash_rule :
 Proof. exact tokenresp_idt_no_hash_rule. Qed.
 Print Assumptions C11_AccessTokenResponse_no_hash_rule.
 
+(* ---- rules over a SET of parameters (Model/MsgRules.v presence / count_true and the set predicates) ----
+   Message.has_none_or_one_of, transcribed as the loop with its latched flag, answers True exactly when AT MOST ONE
+   of the named parameters is present: for every number of names and every presence pattern (induction, so the
+   pattern present-absent-present is covered like any other), and whatever the order of the names *)
+Theorem C11_has_none_or_one_of : forall l, has_none_or_one_of l = true <-> (count_true l <= 1)%nat.
+Proof. exact has_none_or_one_of_iff. Qed.
+Print Assumptions C11_has_none_or_one_of.
+Theorem C11_has_none_or_one_of_refuses : forall l, has_none_or_one_of l = false <-> (2 <= count_true l)%nat.
+Proof. exact has_none_or_one_of_false_iff. Qed.
+Print Assumptions C11_has_none_or_one_of_refuses.
+Theorem C11_has_none_or_one_of_on_a_message :
+  forall ks m, msg_has_none_or_one_of ks m = true <-> (count_true (presence ks m) <= 1)%nat.
+Proof. exact msg_has_none_or_one_of_iff. Qed.
+Print Assumptions C11_has_none_or_one_of_on_a_message.
+Theorem C11_has_none_or_one_of_any_order :
+  forall ks ks' m, Permutation.Permutation ks ks' -> msg_has_none_or_one_of ks m = msg_has_none_or_one_of ks' m.
+Proof. exact msg_has_none_or_one_of_perm. Qed.
+Print Assumptions C11_has_none_or_one_of_any_order.
+(* the predicates the other classes' set rules are stated with *)
+Theorem C11_set_predicates :
+  forall l,
+  (has_at_least_one_of l = true <-> (1 <= count_true l)%nat)
+  /\ (has_none_of l = true <-> count_true l = 0%nat)
+  /\ (has_all_of l = true <-> count_true l = length l)
+  /\ (has_all_or_none_of l = true <-> count_true l = 0%nat \/ count_true l = length l)
+  /\ (has_exactly_one_of l = true <-> count_true l = 1%nat).
+Proof. exact set_predicates_count. Qed.
+Print Assumptions C11_set_predicates.
+
+(* CIBA AuthenticationRequest.verify: an accepted request has, in the message as it stands afterwards (the claims of
+   a request object copied in), at most one of id_token_hint / login_hint / login_hint_token; a request object came
+   with nothing but client-authentication parameters beside it; ping / push mode has its notification token *)
+Theorem C11_rules_CIBA_AuthenticationRequest :
+  forall c rjc ic kw rt ht m m', ciba_authn_verify c rjc ic kw rt ht m = Ok m' ->
+  generic_verify c m = Ok tt
+  /\ (count_true (presence ciba_hints m') <= 1)%nat
+  /\ (has "request" m = true -> count_true (presence (ciba_inside_only c) (adel verified_request m)) = 0%nat)
+  /\ (ciba_mode_needs_token kw = true -> has "client_notification_token" m' = true).
+Proof. exact ciba_accepts_only. Qed.
+Print Assumptions C11_rules_CIBA_AuthenticationRequest.
+(* ... and every pattern with two or more hints is refused *)
+Theorem C11_CIBA_two_hints_refused :
+  forall c rjc ic kw rt ht m,
+  generic_verify c m = Ok tt -> has "request" m = false -> (2 <= count_true (presence ciba_hints m))%nat ->
+  ciba_authn_verify c rjc ic kw rt ht m = Err ValueError.
+Proof. exact ciba_two_hints_refused. Qed.
+Print Assumptions C11_CIBA_two_hints_refused.
+
+(* RegistrationResponse: all or none of the two registration-management parameters *)
+Theorem C11_rules_RegistrationResponse_set :
+  forall c m, regresp_verify c m = Ok tt <->
+  response_verify c m = Ok tt
+  /\ let n := count_true (presence [PS "registration_client_uri"; PS "registration_access_token"] m) in
+     (n = 0 \/ n = 2)%nat.
+Proof. exact regresp_set_rule. Qed.
+Print Assumptions C11_rules_RegistrationResponse_set.
+(* LogoutToken: at least one of sub / sid *)
+Theorem C11_rules_LogoutToken_set :
+  forall c now kw m, logout_typed kw m = true -> logout_verify c now kw m = Ok tt ->
+  (1 <= count_true (presence [PS "sub"; PS "sid"] m))%nat.
+Proof. exact logout_set_rule. Qed.
+Print Assumptions C11_rules_LogoutToken_set.
+(* JWTSecuredAuthorizationRequest: at least one of request / request_uri *)
+Theorem C11_rules_JAR_set :
+  forall c roc p m m', jar_verify c roc p m = Ok m' ->
+  (1 <= count_true (presence [PS "request"; PS "request_uri"] m))%nat.
+Proof. exact jar_set_rule. Qed.
+Print Assumptions C11_rules_JAR_set.
+Theorem C11_rules_JAR_set_none :
+  forall c roc p m, count_true (presence [PS "request"; PS "request_uri"] m) = 0%nat ->
+  jar_verify c roc p m = Err EMissingAttribute.
+Proof. exact jar_set_rule_none. Qed.
+Print Assumptions C11_rules_JAR_set_none.
+(* client metadata / information response / device token request *)
+Theorem C11_OauthClientMetadata_accepts_only :
+  forall c m, clientmeta_typed m = true -> clientmeta_verify c m = Ok tt ->
+  generic_verify c m = Ok tt
+  /\ (forall g, In g (strs (list_of (get "grant_types" m))) -> g = PS "authorization_code" \/ g = PS "implicit" ->
+      has "redirect_uris" m = true).
+Proof. exact clientmeta_accepts_only. Qed.
+Print Assumptions C11_OauthClientMetadata_accepts_only.
+Theorem C11_OauthClientInformationResponse_accepts_only :
+  forall c m, clientinfo_verify c m = Ok tt ->
+  clientmeta_verify c m = Ok tt /\ (has "client_secret" m = true -> has "client_secret_expires_at" m = true).
+Proof. exact clientinfo_accepts_only. Qed.
+Print Assumptions C11_OauthClientInformationResponse_accepts_only.
+Theorem C11_device_AccessTokenRequest_accepts_only :
+  forall c m, device_verify c m = Ok tt ->
+  generic_verify c m = Ok tt
+  /\ (has "device_code" m = true -> has "grant_type" m = true /\ has "client_id" m = true).
+Proof. exact device_accepts_only. Qed.
+Print Assumptions C11_device_AccessTokenRequest_accepts_only.
+
 (* ---- non-vacuity ---- *)
 Definition ex_class : pystr := PS "idpyoidc.message.oidc.AuthorizationRequest".
 Definition ex_ok : msg :=
@@ -440,3 +540,54 @@ Example C11_hashes_nonvacuous :
   | _, _, _ => False
   end.
 Proof. vm_compute. repeat split; try reflexivity. eexists. split; reflexivity. Qed.
+
+(* the CIBA authentication request over the regenerated table: the names the model's hint rule ranges over are the
+   names the code passes to has_none_or_one_of (extracted by ast on every run, Gen/Schema.v set_rule_calls); the full
+   truth table of the three hints - (1,0,1) is refused like the adjacent pairs; the hints inside a request object;
+   a hint beside a request object; ping mode without notification token *)
+Definition ciba_class : pystr := PS "idpyoidc.message.oidc.backchannel_authentication.AuthenticationRequest".
+Definition ciba_jwt_class : pystr := PS "idpyoidc.message.oidc.backchannel_authentication.AuthenticationRequestJWT".
+Definition ciba_base : msg := [(PS "scope", VList [VStr (PS "openid")]); (PS "client_id", VStr (PS "c"))].
+Definition ciba_idt : token :=
+  TJws SigValid (PS "RS256")
+    [(PS "iss", VStr (PS "https://op.example")); (PS "sub", VStr (PS "s")); (PS "aud", VList [VStr (PS "c")]);
+     (PS "exp", VInt 1700000600); (PS "iat", VInt 1700000000)].
+Definition ciba_row (a b c : bool) : msg :=
+  (ciba_base ++ (if a then [(PS "id_token_hint", VStr (PS "eyJ.eyJ.sig"))] else [])
+             ++ (if b then [(PS "login_hint", VStr (PS "mail:x"))] else [])
+             ++ (if c then [(PS "login_hint_token", VStr (PS "tok"))] else []))%list.
+Definition ciba_ro (a b c : bool) : token :=
+  TJws SigValid (PS "RS256")
+    ([(PS "iss", VStr (PS "c")); (PS "aud", VList [VStr (PS "https://op.example")]); (PS "exp", VInt 1700000600);
+      (PS "nbf", VInt 1700000000); (PS "iat", VInt 1700000000); (PS "jti", VStr (PS "j")); (PS "scope", VStr (PS "openid"))]
+     ++ (if a then [(PS "id_token_hint", VStr (PS "eyJ.eyJ.sig"))] else [])
+     ++ (if b then [(PS "login_hint", VStr (PS "mail:x"))] else [])
+     ++ (if c then [(PS "login_hint_token", VStr (PS "tok"))] else []))%list.
+Definition ciba_outer : msg := [(PS "client_id", VStr (PS "c")); (PS "request", VStr (PS "eyJ.eyJ.sig"))].
+Example C11_ciba_nonvacuous :
+  In (ciba_class, PS "has_none_or_one_of", ciba_hints) set_rule_calls
+  /\ match find_class ciba_class all_classes, find_class ciba_jwt_class all_classes, find_class idt_class all_classes with
+     | Some c, Some rjc, Some ic =>
+         let run kw m := ciba_authn_verify c rjc ic kw TJunk ciba_idt m in
+         let via kw a b h := ciba_authn_verify c rjc ic kw (ciba_ro a b h) ciba_idt ciba_outer in
+         c_overrides_verify c = true /\ c_chains c = true
+         /\ accepted (run [] (ciba_row false false false)) = true
+         /\ accepted (run [] (ciba_row true false false)) = true
+         /\ accepted (run [] (ciba_row false true false)) = true
+         /\ accepted (run [] (ciba_row false false true)) = true
+         /\ run [] (ciba_row true true false) = Err ValueError
+         /\ run [] (ciba_row false true true) = Err ValueError
+         /\ run [] (ciba_row true false true) = Err ValueError
+         /\ run [] (ciba_row true true true) = Err ValueError
+         (* the hints inside a signed request object *)
+         /\ accepted (via [] false false true) = true /\ accepted (via [] true false false) = true
+         /\ via [] true false true = Err ValueError /\ via [] true true false = Err ValueError
+         (* a parameter beside the request object *)
+         /\ run [] (ciba_outer ++ [(PS "login_hint", VStr (PS "mail:x"))])%list = Err EParameter
+         (* ping mode *)
+         /\ run [(PS "mode", VStr (PS "ping"))] (ciba_row false true false) = Err EMissingRequired
+         /\ accepted (run [(PS "mode", VStr (PS "ping"))]
+                        (ciba_row false true false ++ [(PS "client_notification_token", VStr (PS "t"))])%list) = true
+     | _, _, _ => False
+     end.
+Proof. vm_compute. repeat split; try reflexivity. left. reflexivity. Qed.
